@@ -450,9 +450,9 @@ func (fr *frame) visit(instr ssa.Instruction) continuation {
 	case *ssa.Field:
 		fr.env[instr] = fr.get(instr.X).(Struct)[instr.Field]
 	case *ssa.IndexAddr:
-		fr.env[instr] = x.indexAddr(fr.get(instr.X), fr.get(instr.Index).(*Term), instr.X.Type())
+		fr.env[instr] = x.indexAddr(fr.get(instr.X), x.to64(fr.get(instr.Index).(*Term), isSigned(instr.Index.Type())), instr.X.Type())
 	case *ssa.Index:
-		fr.env[instr] = x.index(fr.get(instr.X), fr.get(instr.Index).(*Term))
+		fr.env[instr] = x.index(fr.get(instr.X), x.to64(fr.get(instr.Index).(*Term), isSigned(instr.Index.Type())))
 	case *ssa.Lookup:
 		fr.env[instr] = x.lookup(instr, fr.get(instr.X), fr.get(instr.Index))
 	case *ssa.MapUpdate:
@@ -486,13 +486,13 @@ func (x *Exec) load(addr Value) Value {
 		return copyVal(*p)
 	case *SymPtr:
 		// ite chain over the cells
-		var r *Term
+		var r Value
 		for i := len(p.arr) - 1; i >= 0; i-- {
-			c := p.arr[i].(*Term)
+			c := p.arr[i]
 			if r == nil {
-				r = c
+				r = copyVal(c)
 			} else {
-				r = x.tc.Ite(x.tc.Eq(p.idx, x.tc.Const(64, uint64(i))), c, r)
+				r = x.iteValue(x.tc.Eq(p.idx, x.tc.Const(64, uint64(i))), c, r)
 			}
 		}
 		return r
@@ -508,10 +508,8 @@ func (x *Exec) store(addr Value, v Value) {
 		}
 		*p = copyVal(v)
 	case *SymPtr:
-		nv := v.(*Term)
 		for i := range p.arr {
-			old := p.arr[i].(*Term)
-			p.arr[i] = x.tc.Ite(x.tc.Eq(p.idx, x.tc.Const(64, uint64(i))), nv, old)
+			p.arr[i] = x.iteValue(x.tc.Eq(p.idx, x.tc.Const(64, uint64(i))), v, p.arr[i])
 		}
 	default:
 		panic(fmt.Sprintf("store to %T", addr))
@@ -538,11 +536,54 @@ func (x *Exec) to64(t *Term, signed bool) *Term {
 
 func scalarCells(a []Value) bool {
 	for _, c := range a {
-		if _, ok := c.(*Term); !ok {
+		if !scalarTree(c) {
 			return false
 		}
 	}
 	return true
+}
+
+func scalarTree(v Value) bool {
+	switch v := v.(type) {
+	case *Term:
+		return true
+	case Struct:
+		for _, f := range v {
+			if !scalarTree(f) {
+				return false
+			}
+		}
+		return true
+	case Array:
+		for _, f := range v {
+			if !scalarTree(f) {
+				return false
+			}
+		}
+		return true
+	}
+	return false
+}
+
+// iteValue merges two values of identical scalar-tree shape.
+func (x *Exec) iteValue(c *Term, a, b Value) Value {
+	switch a := a.(type) {
+	case *Term:
+		return x.tc.Ite(c, a, b.(*Term))
+	case Struct:
+		r := make(Struct, len(a))
+		for i := range a {
+			r[i] = x.iteValue(c, a[i], b.(Struct)[i])
+		}
+		return r
+	case Array:
+		r := make(Array, len(a))
+		for i := range a {
+			r[i] = x.iteValue(c, a[i], b.(Array)[i])
+		}
+		return r
+	}
+	panic("iteValue: non-scalar shape")
 }
 
 func (x *Exec) indexAddr(base Value, idx *Term, bt types.Type) Value {
